@@ -1105,6 +1105,41 @@ fn parse_expr_binop(
                 ir::ValueType::Lvalue => ExpressionType(lhs_type.0, ir::ValueType::Rvalue),
                 _ => return Err(TyperError::LvalueRequired(lhs.get_location())),
             };
+
+            // Compound assignments have the same operand requirements as their operator
+            if *op != ast::BinOp::Assignment {
+                let left_base = context.module.type_registry.remove_modifier(lhs_type.0);
+                let right_base = context.module.type_registry.remove_modifier(rhs_type.0);
+                let lhs_nv_id = context.module.type_registry.get_non_vector_id(left_base);
+                let rhs_nv_id = context.module.type_registry.get_non_vector_id(right_base);
+
+                let require_integer = matches!(
+                    op,
+                    ast::BinOp::LeftShiftAssignment
+                        | ast::BinOp::RightShiftAssignment
+                        | ast::BinOp::BitwiseAndAssignment
+                        | ast::BinOp::BitwiseOrAssignment
+                        | ast::BinOp::BitwiseXorAssignment
+                );
+                if require_integer {
+                    if !is_integer_or_bool_or_enum(lhs_nv_id, context) {
+                        return Err(TyperError::IntegerTypeExpected(lhs.location));
+                    }
+
+                    if !is_integer_or_bool_or_enum(rhs_nv_id, context) {
+                        return Err(TyperError::IntegerTypeExpected(rhs.location));
+                    }
+                } else {
+                    if get_non_vector_conversion_rank(lhs_nv_id, &mut context.module).is_none() {
+                        return Err(TyperError::NumericTypeExpected(lhs.location));
+                    }
+
+                    if get_non_vector_conversion_rank(rhs_nv_id, &mut context.module).is_none() {
+                        return Err(TyperError::NumericTypeExpected(rhs.location));
+                    }
+                }
+            }
+
             match ImplicitConversion::find(rhs_type, required_rtype, &mut context.module) {
                 Ok(rhs_cast) => {
                     let rhs_final = rhs_cast.apply(rhs_ir, &mut context.module);
